@@ -68,8 +68,9 @@ def _prog(depth, prefer=None):
              "length": st.tuples(st.just("length"), st.sampled_from(LUNITS))}
     unit = st.one_of(kinds["energy"], kinds["frequency"], kinds["length"])
     if prefer is not None:
-        # half of the contexts opened inside another one change the same type of units again
-        unit = st.one_of(kinds[prefer], unit)
+        # half of the contexts opened inside another one change the same type of units again, sometimes to the very
+        # same unit (with pre-created context objects: the same object entered again inside itself)
+        unit = st.one_of(kinds[prefer[0]], st.just(prefer), unit, unit)
     leaf = st.one_of(st.just({"s": "probe"}), st.builds(lambda n: {"s": "raise", "levels": n}, st.integers(1, 3)),
                      st.just({"s": "probe"}))
     if depth == 0:
@@ -78,7 +79,7 @@ def _prog(depth, prefer=None):
     # entered here - the pattern `e_units = qr.energy_units("1/cm") ... with e_units:` of the library's examples
     ctx = unit.flatmap(lambda u: st.builds(
         lambda b, pre: {"s": "ctx", "utype": u[0], "unit": u[1], "body": b, "pre": pre},
-        _prog(depth - 1, prefer=u[0]), st.sampled_from([False, False, True])))
+        _prog(depth - 1, prefer=(u[0], u[1])), st.sampled_from([False, False, True])))
     return st.lists(st.one_of(ctx, ctx, leaf), min_size=1, max_size=3)
 
 
@@ -158,6 +159,10 @@ def _check_matrix(case, ctx):
             with qr.energy_units("nm"):
                 cmp("conversion", m.convert_energy_2_current_u(i2), orc.convert(v, u1, "nm"))
             cmp("conversion", qr.convert(lam, "nm", to=u2), orc.convert(lam, "nm", u2))
+            # wavelengths handed over as an integer array (e.g. numpy.array([500, 600]))
+            with qr.energy_units("nm"):
+                ii = m.convert_energy_2_internal_u(numpy.array([int(lam), 2 * int(lam)]))
+            cmp("stored-value", ii, orc.to_internal(numpy.array([float(int(lam)), 2.0 * int(lam)]), "nm"), what="integer array")
             # arrays read in nm: zero stays zero ("zero is interpreted as zero energy"), every other element - also a
             # negative one such as a resonance coupling - is converted element-wise
             M = numpy.array([[0.0, 0.0, 0.0], [0.0, v, -abs(case["v2"]) - 1.0], [0.0, -abs(case["v2"]) - 1.0, v + 3.0]])
@@ -450,7 +455,10 @@ def _check_program(case, ctx):
                 inner["energy" if utype == "frequency" else utype] = unit
                 pending = None
                 key = (utype, unit)
-                if stm.get("pre") and key not in active:
+                if stm.get("pre"):
+                    # (also when that very object is active already: one object entered again inside itself)
+                    if key in active:
+                        stats["reentrant"] = stats.get("reentrant", 0) + 1
                     if key not in precreated:
                         raise HarnessError("context object not pre-created")
                     cm = precreated[key]
@@ -460,13 +468,13 @@ def _check_program(case, ctx):
                     key = None
                 try:
                     if key:
-                        active.add(key)
+                        active.append(key)
                     try:
                         with cm:
                             run(stm["body"], depth + 1, inner)
                     finally:
                         if key:
-                            active.discard(key)
+                            active.remove(key)
                 except _Abort as e:
                     stats["exc"] += 1
                     if e.levels > 1 and depth > 0:
@@ -479,7 +487,7 @@ def _check_program(case, ctx):
                 if pending:
                     raise pending
     # context objects that the program enters later are created now, under the default units
-    precreated, active = {}, set()
+    precreated, active = {}, []
 
     def collect(block):
         for stm in block:
@@ -496,7 +504,8 @@ def _check_program(case, ctx):
         raise HarnessError("abort escaped")
     except Exception as e:
         ctx.fail("context/raises", exc=type(e).__name__, msg=str(e)[:120])
-    ctx.label("program", "pre-created-context-objects" if stats["pre"] else "inline-contexts")
+    ctx.label("program", "pre-created-context-objects" if stats["pre"] else "inline-contexts",
+              "re-entrant-context-object" if stats.get("reentrant") else "no-re-entry")
     ctx.mark_nontrivial(stats["depth"] >= 2 or stats["exc"] >= 1)
     _units_default(ctx, qr, "program")
 
